@@ -674,6 +674,38 @@ static inline int c2_op_copy(struct c2_ctx *c, char *what, size_t wn)
     return slot;
 }
 
+/* ubuf_block_merge: "Merges part of a (segmented) ubuf in a single segment ubuf": the handle gets a window of itself in a
+ * fresh area of its own (which it alone references: a write must be granted afterwards); a refused merge (window outside the
+ * block) must leave the handle as it was -- still readable, still sharing what it shared */
+static inline int c2_op_merge(struct c2_ctx *c, char *what, size_t wn)
+{
+    int ai = c2_pick_kind(c, C2_BLOCK);
+    if (ai < 0 || c->h[ai].n == 0 || c->nareas >= C2_MAXAREA) return -1;
+    struct c2_hnd *a = &c->h[ai];
+    uint8_t sel = tp_u8(&c->t);
+    size_t off = c2_off(c, a);
+    int sz = c2_len(c, a->n, off, false);
+    bool bad = (sel & 7) == 7;                  /* window beyond the end */
+    int64_t aoff = bad ? (int64_t)a->n + 1 + (sel >> 3) : (int64_t)off;
+    if (bad) sz = 1 + (sel >> 5);
+    c->hash = vp_hash_mix(c->hash, 0xabc000 + aoff * 64 + sz);
+    snprintf(what, wn, "merge(h%d,%lld,%d)", ai, (long long)aoff, sz);
+    int err = ubuf_block_merge(c->block_mgr, &a->u, (int)aoff, sz);
+    R("  %s -> %d\n", what, err);
+    if (bad) {
+        if (ubase_check(err)) FAIL("C02/domain/merge", "%s beyond the end of a block of %zu octets succeeded", what, a->n);
+        return ai;                              /* c2_check_all reads the handle back: it must be unchanged and alive */
+    }
+    if (!ubase_check(err)) { FAIL("C02/domain/merge", "%s inside a block of %zu octets fails", what, a->n); return -1; }
+    int X = c2_new_area(c);
+    size_t ns = sz == -1 ? a->n - off : (size_t)sz;
+    memmove(a->m, a->m + off, ns); memmove(a->wild, a->wild + off, ns);
+    memset(a->area, X, ns);
+    a->n = ns; a->nseg = 1; a->nb = 0;
+    a->may = ABIT(X); a->multi = 0; a->head_area = X;
+    return ai;
+}
+
 static inline int c2_op_free(struct c2_ctx *c, int kind, char *what, size_t wn)
 {
     int ai = c2_pick_kind(c, kind);
@@ -721,6 +753,7 @@ static inline int c2_block_op(struct c2_ctx *c, unsigned code, char *what, size_
     case 12: return c2_op_copy(c, what, wn);
     case 13: return c2_op_write(c, what, wn);
     case 14: return c2_op_free_sharers(c, what, wn);
+    case 15: return c2_op_merge(c, what, wn);
     default: return c2_op_splice(c, what, wn);
     }
 }
